@@ -7,5 +7,6 @@ CONSTANTS
   ClearOnReadFail = TRUE
   CtxEarly = FALSE
   ClearLate = TRUE
+  SharedExtras = FALSE
   UseLock = TRUE
 INVARIANT Isolation
